@@ -922,7 +922,7 @@ static json_t *project_member(const char *name, json_t *v)
 	case JSON_TRUE: return mem4(name, "bool", "true", NULL);
 	case JSON_FALSE: return mem4(name, "bool", "false", NULL);
 	case JSON_NULL: return mem4(name, "null", "null", NULL);
-	case JSON_REAL: return mem4(name, "real", "real", NULL);
+	case JSON_REAL: { char rb[40]; snprintf(rb, sizeof rb, "%.17g", json_real_value(v)); return mem4(name, "real", rb, NULL); }	/* every digit that matters */
 	case JSON_OBJECT:
 	case JSON_ARRAY:
 		s = json_dumps(v, JSON_COMPACT | JSON_SORT_KEYS | JSON_ENSURE_ASCII);
@@ -1391,7 +1391,7 @@ static char *segment_for(const char *cls, json_t *members, const char *algspell,
 				}
 				json_object_set_new(o, "alg", json_stringn_nocheck(tmp, w));
 				free(tmp);
-			} else json_object_set_new(o, "alg", json_string(algspell));
+			} else { char *xl = expand_long(algspell); json_object_set_new(o, "alg", json_string(xl ? xl : algspell)); free(xl); }
 			json_array_foreach(lst, i, p)
 				json_object_set_new(o, json_string_value(json_array_get(p, 0)), mem_value(p));
 			js = json_dumps(o, (!strcmp(cls, "objws") ? JSON_INDENT(2) : JSON_COMPACT) | JSON_PRESERVE_ORDER);
@@ -1629,7 +1629,7 @@ static char *forge_token(json_t *td, json_t *info)
 		}
 	}
 
-	tok = malloc(strlen(hseg) + strlen(pseg) + strlen(sigseg) + 16);
+	tok = malloc(strlen(hseg) + strlen(pseg) + 2 * strlen(sigseg) + 32);
 	if (!strcmp(shape, "3seg")) sprintf(tok, "%s.%s.%s", hseg, pseg, sigseg);
 	else if (!strcmp(shape, "0dot")) sprintf(tok, "%s%s%s", hseg, pseg, sigseg);
 	else if (!strcmp(shape, "1dot")) sprintf(tok, "%s.%s%s", hseg, pseg, sigseg);
@@ -1637,6 +1637,11 @@ static char *forge_token(json_t *td, json_t *info)
 	else if (!strcmp(shape, "4seg")) sprintf(tok, "%s.%s.%s.%s", hseg, pseg, sigseg, "AAAA");
 	else if (!strcmp(shape, "4segempty")) sprintf(tok, "%s.%s.%s.", hseg, pseg, sigseg);
 	else if (!strcmp(shape, "lead")) sprintf(tok, ".%s.%s.%s", hseg, pseg, sigseg);
+	/* the genuine signature as the LAST segment, with something else in third place */
+	else if (!strcmp(shape, "4segmid")) sprintf(tok, "%s.%s.AAAA.%s", hseg, pseg, sigseg);
+	else if (!strcmp(shape, "4segmidempty")) sprintf(tok, "%s.%s..%s", hseg, pseg, sigseg);
+	else if (!strcmp(shape, "5segmid")) sprintf(tok, "%s.%s.x.y.%s", hseg, pseg, sigseg);
+	else if (!strcmp(shape, "dupsig")) sprintf(tok, "%s.%s.%s.%s", hseg, pseg, sigseg, sigseg);
 	else die("shape %s", shape);
 	free(hseg); free(pseg); free(sigseg); free(text);
 	return tok;
